@@ -76,7 +76,7 @@ def t_end(world):
         E_ = list(flat_events(r['events']))
         hs = [e for e in E_ if e[0] == 'health']; nc = [e for e in E_ if e[0] == 'call' and re.search(r'validate_not_cpi_by_stack_height$', e[1])]
         if len(hs) != 1: ob.fail(f'{len(hs)} health checks on an accepting path'); continue
-        if not nc: ob.fail('no not-CPI check'); continue
+        if not nc: ob.structural('no not-CPI check on an accepting path', 'no-cpi-guard'); continue
         ob.prove(eng, r, [okc], zint(nc[0][3].disc) == 0, 'not-CPI check error propagated')
         ob.prove(eng, r, [okc], z3.Not(bit(hs[0][1], F_FLASH)), 'flag already cleared when the health check runs (so the check is not skipped)')
         ob.prove(eng, r, [okc], hs[0][2] == 0, 'health check error is propagated')
